@@ -7,7 +7,7 @@ RULE = ("fpall ops: byte strings dissected as IPv4/IPv6 (well-framed packets fro
         "hostile option areas incl. every (kind, length 0..3) prefix) given to fingerprint_tcp / _mtu / _uptime; httpall ops: HTTP payloads from a grammar, all strings over "
         "{CR,LF,SP,HT,':','A',0xff} up to a length, random bytes. Oracle: exception category in {none, PacketError}; executed lines inside pyp0f <= A + B*len(input); "
         "len(layout) <= option bytes. Non-trivial = the input is not a plain well-formed packet/message (some gate or error path is taken).")
-ASSUMPTIONS = ["work is measured as executed Python lines inside the pyp0f package (deterministic); wall-clock time and memory are not measured except by the per-op 5 s watchdog",
+ASSUMPTIONS = ["work is measured as executed Python lines inside the pyp0f package (deterministic); wall-clock time and memory are not measured except by the per-op watchdog (4 s of CPU time of the worker, wall-clock backstop 80 s)",
                "what Scapy does with ill-framed bytes is not modelled; an exception raised by Scapy's own dissection before pyp0f is called is reported separately (dissect=...)",
                "a one-record-per-section database is used, so DatabaseError cannot occur"]
 NONTRIVIAL_FLOOR = 2000
@@ -28,7 +28,7 @@ def judge_pkt(ctx, line, a):
     if a.startswith("SKIP"):
         return
     if a == "HANG":
-        ctx.fail("fingerprint call did not terminate within the watchdog (5 s)", op=line, impl=a)
+        ctx.fail("fingerprint call did not terminate within the watchdog (4 s CPU)", op=line, impl=a)
         return
     kv = parse_kv(a)
     if "dissect" in kv:
@@ -51,7 +51,7 @@ def judge_http(ctx, line, a):
     if a.startswith("SKIP"):
         return
     if a == "HANG":
-        ctx.fail("fingerprint_http did not terminate within the watchdog (5 s)", op=line, impl=a)
+        ctx.fail("fingerprint_http did not terminate within the watchdog (4 s CPU)", op=line, impl=a)
         return
     kv = parse_kv(a)
     if kv.get("http") not in ("ok", "ERR_packet"):
